@@ -152,3 +152,10 @@ void h_rans_step(void) {
 #endif
   HARNESS_END();
 }
+
+/* format pins (C05): the constants that define the rABS/rANS bitstream */
+void h_fmt_ans_constants(void) {
+  ASSERT(DRACO_ANS_L_BASE == 4096u && DRACO_ANS_IO_BASE == 256 && DRACO_ANS_P8_PRECISION == 256u, "fmt.ans.base_constants");
+  ASSERT(rans_precision == (1 << RANS_P) && l_rans_base == 4 * (1 << RANS_P), "fmt.rans.l_base_is_four_times_precision");
+  HARNESS_END();
+}
